@@ -49,15 +49,18 @@ def run_demo(tmp: str, demo: str) -> int:
     return r.returncode
 
 
-def ingest(pid: str, k: str, tests: list[str]) -> int:
-    src = os.path.join("/tmp/seed/out", pid, k)
+def ingest(pid: str, k: str, tests: list[str], rnd: int = 1) -> int:
+    src = os.path.join("/tmp/seed/out" if rnd == 1 else f"/tmp/seed/out{rnd}",
+                       pid, k)
+    if rnd > 1:  # round r, change k is stored as CNN-<2(r-1)+k>
+        k = str(2 * (rnd - 1) + int(k))
     patch = os.path.join(src, "patch.diff")
     demo = os.path.join(src, "demo.py")
     if not (os.path.exists(patch) and os.path.exists(demo)):
         print(f"{pid}-{k}: missing patch.diff / demo.py in {src}")
         return 1
     tmp = scratch_copy()
-    meta = {"property": pid, "id": f"{pid}-{k}", "ingested": time.strftime(
+    meta = {"property": pid, "id": f"{pid}-{k}", "round": rnd, "ingested": time.strftime(
         "%Y-%m-%d %H:%M"), "base_commit": subprocess.check_output(
         ["git", "-C", "/repo", "rev-parse", "--short", "HEAD"],
         text=True).strip()}
@@ -166,7 +169,12 @@ def main() -> int:
             i = a.index("--tests")
             tests = [t.strip() for t in a[i + 1].split(",") if t.strip()]
             del a[i:i + 2]
-        return ingest(a[1], a[2], tests)
+        rnd = 1
+        if "--round" in a:
+            i = a.index("--round")
+            rnd = int(a[i + 1])
+            del a[i:i + 2]
+        return ingest(a[1], a[2], tests, rnd)
     if a[0] == "run":
         tier = "quick"
         also: list[str] = []
